@@ -1100,6 +1100,7 @@ impl Task {
             parent = task.parent();
         }
 
+        let mut updated_tasks: Vec<Arc<Task>> = Vec::new();
         for (ref name, ref value) in vars {
             // skip private keys
             if pri_keys_regex.is_match(name) {
@@ -1115,9 +1116,19 @@ impl Task {
                 });
 
                 if is_updated {
+                    if !updated_tasks.iter().any(|iter| iter.id == t.id) {
+                        updated_tasks.push(t.clone());
+                    }
                     break;
                 }
             }
+        }
+
+        // the changed data of the parent tasks should be saved as well
+        for t in updated_tasks.iter() {
+            self.runtime.cache().upsert(t).unwrap_or_else(|err| {
+                tracing::error!("task.update_data upsert={}", err);
+            });
         }
 
         // also set the to current task
